@@ -1131,6 +1131,59 @@ mod b12 {
 		rec.case(&format!("mirror {} {} {} {} {} {}", kind, hex(src), h(&payer), h(&own), h(&exp_own), h(&sig)), &hex(msg), class, true);
 	}
 
+	/// `readers <offer|req|requ|inv|invu> <bytes>` -> accept | refuse (round 6): WHICH record types the real parsers admit —
+	/// the chain of tlv_stream! range readers behind `ParsedMessage::<T>::try_from` plus its exhausted-cursor check.  `msg` is
+	/// a message the library built; an UNKNOWN record (no field of any tlv_stream! has its type) of a boundary-aimed type is
+	/// inserted at its ascending position.  Real verdict: Err(Decode(_)) = refused by the readers; Ok / InvalidSignature (the
+	/// inserted record changes the merkle root) = admitted.  The model answers with the reader chains translated from the
+	/// tuple types and `impl CursorReadable` read orders (Generated/C18Readers.lean).  Impl-side oracle (no model): an
+	/// admitted record lies inside the type ranges BOLT 12 gives this kind of message and is odd; an odd record inside is admitted.
+	fn b12_readers_probe(rec: &mut Rec, st: &mut B12St, kind: &'static str, msg: &[u8]) {
+		use lightning::offers::parse::Bolt12ParseError;
+		const EDGES: &[u64] = &[0, 1, 79, 80, 159, 160, 239, 240, 1000, 1001, 1_000_000_000, 2_000_000_000, 3_000_000_000, 4_000_000_000];
+		const KNOWN: &[u64] = &[0, 2, 4, 6, 8, 10, 12, 14, 16, 18, 20, 22, 80, 82, 84, 86, 88, 89, 90, 91, 160, 162, 164, 166, 168, 170, 172, 174, 176, 236, 240];
+		let mut prng = Rng::new(msg.iter().fold(0xcbf29ce484222325u64, |h, b| (h ^ *b as u64).wrapping_mul(0x100000001b3)) ^ kind.len() as u64);
+		let unsigned = kind == "requ" || kind == "invu";
+		let base = if unsigned { b12_select(msg, |t| !b12_is_sig(t)) } else { msg.to_vec() };
+		let spec_in = |t: u64| -> bool {
+			let sig = !unsigned && kind != "offer" && (240..=1000).contains(&t);
+			match kind {
+				"offer" => (1..80).contains(&t) || (1_000_000_000..2_000_000_000).contains(&t),
+				"req" | "requ" => t < 160 || sig || (1_000_000_000..3_000_000_000).contains(&t),
+				_ => t < 240 || sig || (1_000_000_000..4_000_000_000).contains(&t),
+			}
+		};
+		for _ in 0..3 {
+			let e = EDGES[prng.below(EDGES.len() as u64) as usize];
+			let t = match prng.below(7) { 0 => e, 1 => e + 1, 2 => e.saturating_sub(1), 3 => e + 2, 4 => e.saturating_sub(2), 5 => e + 3, _ => e.saturating_sub(3) };
+			if KNOWN.contains(&t) && !(t == 0 && kind == "offer") { continue; }
+			let n = prng.below(3) as usize;
+			let b = match b12_insert_record(&base, t, &prng.bytes(n)) { Some(b) => b, None => continue };
+			let r: Result<Result<(), Bolt12ParseError>, String> = guarded(B12Aus(|| match kind {
+				"offer" => Offer::try_from(b.clone()).map(|_| ()),
+				"req" => InvoiceRequest::try_from(b.clone()).map(|_| ()),
+				"requ" => UnsignedInvoiceRequest::try_from(b.clone()).map(|_| ()),
+				"inv" => Bolt12Invoice::try_from(b.clone()).map(|_| ()),
+				_ => UnsignedBolt12Invoice::try_from(b.clone()).map(|_| ()),
+			}));
+			let verdict = match &r {
+				Ok(Ok(())) => "accept",
+				Ok(Err(Bolt12ParseError::Decode(_))) => "refuse",
+				Ok(Err(Bolt12ParseError::InvalidSignature(_))) => "accept",
+				Ok(Err(_)) => { st.b12_built("readers:semantic-error-after-the-readers"); "accept" },
+				Err(p) => { rec.oracle_fail(format!("panic parsing a {} with an inserted unknown record of type {}: {} bytes={}", kind, t, p, hex(&b))); continue; },
+			};
+			if verdict == "accept" && !(spec_in(t) && t % 2 == 1) {
+				rec.oracle_fail(format!("the {} parser ADMITTED an unknown record of type {} ({}): bytes={}", kind, t, if spec_in(t) { "even = must-understand" } else { "outside the type ranges of this message" }, hex(&b)));
+			}
+			if verdict == "refuse" && spec_in(t) && t % 2 == 1 {
+				rec.oracle_fail(format!("the {} parser REFUSED an unknown ODD record of type {} inside the type ranges of this message: bytes={} err={:?}", kind, t, hex(&b), r));
+			}
+			let region = if t < 240 { "low" } else if t <= 1000 { "sigrange" } else if t < 1_000_000_000 { "gap" } else if t < 4_000_000_000 { "experimental" } else { "above" };
+			rec.case(&format!("readers {} {}", kind, hex(&b)), verdict, &format!("readers:{}:{}:{}", kind, region, verdict), true);
+		}
+	}
+
 	enum B12Signer<'a> { Fixed(secp256k1::schnorr::Signature), Key(&'a Keypair) }
 
 	/// Insert an (unknown) record into a well-formed ascending stream at its ascending position; `None` if the type is present.
@@ -1920,6 +1973,7 @@ mod b12 {
 		st.b12_built("offer");
 		let obytes = b12_ser(&offer);
 		// ---- offer: ops, accessors, round trips
+		b12_readers_probe(rec, st, "offer", &obytes);
 		b12_emit_merkle(rec, "merkle:offer", &obytes);
 		b12_expect(rec, offer.as_ref() == &obytes[..], "offer.as_ref()==encode()", &obytes);
 		b12_expect(rec, offer.amount() == p.amount.map(|a| Amount::Bitcoin { amount_msats: a }), "offer.amount", &obytes);
@@ -1967,6 +2021,7 @@ mod b12 {
 		st.b12_built("invreq");
 		let rbytes = b12_ser(&req);
 		b12_emit_mirror(rec, "mirror:offer->invreq", "req", &obytes, &rbytes);
+		b12_readers_probe(rec, st, "req", &rbytes); b12_readers_probe(rec, st, "requ", &rbytes);
 		let rroot = b12_emit_merkle(rec, "merkle:invreq", &rbytes);
 		let rdigest = b12_emit_digest(rec, "digest:invreq", B12_TAG_INVREQ, &rbytes);
 		let stripped = b12_select(&rbytes, |t| !b12_is_sig(t));
@@ -2025,6 +2080,7 @@ mod b12 {
 			Ok((inv, uroot)) => {
 				let ibytes = b12_ser(&inv);
 				b12_emit_mirror(rec, "mirror:invreq->invoice", "inv", &rbytes, &ibytes);
+				b12_readers_probe(rec, st, "inv", &ibytes); b12_readers_probe(rec, st, "invu", &ibytes);
 				b12_check_invoice(rec, rng, st, "invoice", &inv, &ip, uroot);
 				b12_expect(rec, inv.is_for_offer() && !inv.is_for_refund(), "invoice.is_for_offer", &ibytes);
 				b12_expect(rec, Some(inv.amount_msats()) == req.amount_msats(), "invoice.amount_msats", &ibytes);
